@@ -132,6 +132,8 @@ def recon_tables():
                                r"map\(complete::identifier, Cow::Borrowed\)\(input\)\s*\}", rec))
     fin_both = len(re.findall(r"fn attr_name_final\(input: Span<'_>\) -> IResult<Span<'_>, Cow<'_, str>> \{\s*"
                               r"alt\(\(string_literal, map\(complete::identifier, Cow::Borrowed\)\)\)\(input\)\s*\}", rec))
+    fin_both += len(re.findall(r"fn attr_name_final\(input: Span<'_>\) -> IResult<Span<'_>, Cow<'_, str>> \{\s*(?://[^\n]*\n\s*)*"
+                               r"alt\(\(\s*complete_parser\(string_literal\),\s*map\(complete::identifier, Cow::Borrowed\),?\s*\)\)\(input\)\s*\}", rec))
     if fin_ident + fin_both != 1:
         raise ExtractError("record/mod.rs: attr_name_final not recognised")
 
